@@ -347,6 +347,34 @@ static std::string do_memory(const std::string & line) {
     return "FM ok n=" + std::to_string(n) + " peak=" + std::to_string(static_cast<long long>(g_peak_bytes) - base);
 }
 
+// FN <nobj> <objbytes> <cs> <sleep_us> : write nobj objects with a pause after each (the workers drain the stream in between);
+// peak live bytes during the write session
+static std::string do_memory_write(const std::string & line) {
+    std::istringstream ss(line);
+    std::string cmd;
+    long nobj = 100, objbytes = 100, cs = 4096, sleep_us = 0;
+    ss >> cmd >> nobj >> objbytes >> cs >> sleep_us;
+    std::string path = g_tmp + ".n.blf";
+    long long base = g_live_bytes;
+    g_peak_bytes = base;
+    {
+        File f;
+        f.compressionLevel = 0;
+        f.setDefaultLogContainerSize(static_cast<uint32_t>(cs));
+        f.open(path.c_str(), std::ios_base::out);
+        for (long i = 0; i < nobj; i++) {
+            auto * a = new AppText;
+            a->text.assign(static_cast<size_t>(objbytes), 'a' + static_cast<char>(i % 26));
+            f.write(a);
+            g_progress++;
+            if (sleep_us > 0) std::this_thread::sleep_for(std::chrono::microseconds(sleep_us));
+        }
+        f.close();
+    }
+    std::remove(path.c_str());
+    return "FN ok peak=" + std::to_string(static_cast<long long>(g_peak_bytes) - base);
+}
+
 // FH <ops> : an API history on one File object; prints is_open/good/eof after every call and the leak count at the end.
 //   om open(missing file, in)  ou open(unwritable path, out)  oi open(valid file, in)  ob open(bad signature, in)
 //   oo open(out)  r read  w write(new CanMessage)  c close  (the File is destroyed at the end)
@@ -428,6 +456,7 @@ int main(int argc, char ** argv) {
             else if (line.compare(0, 3, "FE ") == 0) r = do_read_early(line);
             else if (line.compare(0, 3, "FM ") == 0) r = do_memory(line);
             else if (line.compare(0, 3, "FH ") == 0) r = do_history(line);
+            else if (line.compare(0, 3, "FN ") == 0) r = do_memory_write(line);
             else r = "? bad case";
         } catch (std::exception & ex) {
             r = std::string("ESCAPED ") + ex.what();
